@@ -392,8 +392,10 @@ def gen_request (rng, xid):
                        [dict(type=0, port=1, max_len=0), dict(type=0, port=3, max_len=0)],
                        []])
     if k < 0.2:
+      # (with or without a frame behind the actions: data only means
+      #  something when no buffer is named)
       return msg("packet_out", buffer_id=rng.choice([0, 1, 5, 0x7fffffff]),
-                 in_port=1, actions=acts, data=b"")
+                 in_port=1, actions=acts, data=rng.choice([b"", b"", FRAME]))
     if k < 0.35:
       bad = lambda: dict(type=rng.choice([12, 0x77]), data=b"\0" * 4)
       return msg("packet_out", buffer_id=0xffffffff, in_port=1,
